@@ -152,6 +152,96 @@ type Batch struct {
 	NBatches int
 	Only     int // >=0: run only this case index (replay)
 	R        *Result
+	out      string
+}
+
+func (b *Batch) flush() {
+	b.R.mu.Lock()
+	data, err := json.Marshal(b.R)
+	b.R.mu.Unlock()
+	if err != nil {
+		fmt.Fprintln(os.Stderr, "marshal:", err)
+		os.Exit(2)
+	}
+	if err := os.WriteFile(b.out, data, 0o644); err != nil {
+		fmt.Fprintln(os.Stderr, "write:", err)
+		os.Exit(2)
+	}
+}
+
+// Guard runs one single-goroutine case and decides "an operation never returns": if the case has not finished after
+// guardLimit and its goroutine has been parked in a sync.Mutex/RWMutex acquisition with an unchanged stack for the
+// whole second half of that time (nobody else is running who could release the lock), the call is blocked for good:
+// violation with the stack as witness, and the batch ends there (the process cannot continue past a deadlock). Anything
+// else that exceeds the limit is inconclusive.
+func (b *Batch) Guard(idx int, sigPrefix string, fn func()) {
+	done := make(chan struct{})
+	var gid int64
+	ready := make(chan struct{})
+	go func() {
+		defer close(done)
+		gid = curGoroutineID()
+		close(ready)
+		fn()
+	}()
+	<-ready
+	limit := guardLimit
+	select {
+	case <-done:
+		return
+	case <-time.After(limit / 2):
+	}
+	first := goroutineStack(gid)
+	select {
+	case <-done:
+		return
+	case <-time.After(limit / 2):
+	}
+	second := goroutineStack(gid)
+	locked := strings.Contains(second, "sync.runtime_SemacquireRWMutex") || strings.Contains(second, "sync.runtime_SemacquireMutex") || strings.Contains(second, "sync.runtime_Semacquire(")
+	if first == second && locked && strings.Contains(second, "github.com/bool64/cache.") {
+		b.R.Violate(b, idx, sigPrefix+":operation-blocked", fmt.Sprintf("%s: a call into the library has been waiting for a lock for %v with no other goroutine of the case running; stack:\n%s", sigPrefix, limit/2, second), map[string]interface{}{"stack": second})
+	} else {
+		b.R.Inconcl(fmt.Sprintf("%s case %d exceeded %v without a stable lock wait", sigPrefix, idx, limit))
+	}
+	b.flush()
+	os.Exit(0)
+}
+
+var guardLimit = 20 * time.Second
+
+func curGoroutineID() int64 {
+	buf := make([]byte, 64)
+	buf = buf[:runtime.Stack(buf, false)]
+	// "goroutine 123 ["
+	f := strings.Fields(string(buf))
+	if len(f) < 2 {
+		return -1
+	}
+	n, _ := strconv.ParseInt(f[1], 10, 64)
+	return n
+}
+
+// goroutineStack returns the stack block of goroutine gid without its header line (which carries a wait duration).
+func goroutineStack(gid int64) string {
+	buf := make([]byte, 1<<20)
+	for {
+		n := runtime.Stack(buf, true)
+		if n < len(buf) {
+			buf = buf[:n]
+			break
+		}
+		buf = make([]byte, 2*len(buf))
+	}
+	hdr := fmt.Sprintf("goroutine %d [", gid)
+	for _, blk := range strings.Split(string(buf), "\n\n") {
+		if strings.HasPrefix(blk, hdr) {
+			if i := strings.IndexByte(blk, '\n'); i >= 0 {
+				return blk[i+1:]
+			}
+		}
+	}
+	return ""
 }
 
 // CaseSeed derives the PRNG seed of case i of this batch; a case is reproducible on its own.
@@ -244,17 +334,9 @@ func child(a []string) {
 		fmt.Fprintln(os.Stderr, "no engine", id)
 		os.Exit(2)
 	}
-	b := &Batch{ID: id, Tier: tier, Seed: seed, Index: bi, NBatches: nb, Only: only, R: newResult()}
+	b := &Batch{ID: id, Tier: tier, Seed: seed, Index: bi, NBatches: nb, Only: only, R: newResult(), out: out}
 	e.Run(b)
-	data, err := json.Marshal(b.R)
-	if err != nil {
-		fmt.Fprintln(os.Stderr, "marshal:", err)
-		os.Exit(2)
-	}
-	if err := os.WriteFile(out, data, 0o644); err != nil {
-		fmt.Fprintln(os.Stderr, "write:", err)
-		os.Exit(2)
-	}
+	b.flush()
 }
 
 type knownFinding struct {
